@@ -168,13 +168,15 @@ def _apply(obj, params, nums, entry):
     if entry == 'operations':
         return operations.insert_knot(obj, list(params), list(nums))
     # object wrapper
+    # (a count of 1 is the documented default of the wrappers: it is left out, as a caller would)
     if pd == 1:
-        return obj.insert_knot(params[0], num=nums[0])
+        return obj.insert_knot(params[0]) if nums[0] == 1 else obj.insert_knot(params[0], num=nums[0])
     kw = {}
     for a in range(pd):
         if params[a] is not None:
             kw[K.DIRN[a]] = params[a]
-            kw['num_' + K.DIRN[a]] = nums[a]
+            if nums[a] != 1:
+                kw['num_' + K.DIRN[a]] = nums[a]
     return obj.insert_knot(**kw)
 
 
